@@ -210,19 +210,21 @@ def isDirectory (b : Backend) (t : Tree) (p : Path) : Bool :=
     let loc := normalize p
     t.any fun ke => ke.1 ≠ loc && isWithin ke.1 loc
 
+/-- what `Source::walk` yields for one entry of the tree: Memory — the (normalised) key when it
+lies within the normalised location; file system — `location ++ rest` for a regular file below
+the resolved location -/
+def walkEntry (b : Backend) (loc : Path) (ke : Path × Entry) : Option Path :=
+  if b.fsys then
+    if ke.2.isFile && startsWith ke.1 (resolve b loc) then
+      some (loc ++ ke.1.drop (resolve b loc).length)
+    else none
+  else
+    if isWithin (normalize ke.1) (normalize loc) then some (normalize ke.1) else none
+
 /-- resources.rs `Source::walk` (files only), in the tree's own order; the real enumeration
 order (HashMap / read_dir) is an arbitrary permutation of this list. -/
 def walk (b : Backend) (t : Tree) (loc : Path) : List Path :=
-  if b.fsys then
-    if loc = [] then [] else
-    let r := resolve b loc
-    t.filterMap fun ke =>
-      if ke.2.isFile && startsWith ke.1 r then some (loc ++ ke.1.drop r.length) else none
-  else
-    let l := normalize loc
-    t.filterMap fun ke =>
-      let k := normalize ke.1
-      if isWithin k l then some k else none
+  if b.fsys && loc = [] then [] else t.filterMap (walkEntry b loc)
 
 /-- resources.rs `Resources::collect_work`. -/
 def collectWorkRes (b : Backend) (t : Tree) (loc : Path) : List Path :=
